@@ -3,7 +3,7 @@ use std::{collections::{HashMap, HashSet}, io::{BufRead, Write}, path::{Path, Pa
 use watchexec::{sources::fs::{verif, Watcher as Kind}, Config, WatchedPath};
 
 #[derive(Default)]
-struct World { log: Vec<String>, fail_watch: HashSet<String>, fail_unwatch: HashSet<String>, shape: HashMap<String, String>, hooks: HashMap<String, (Vec<String>, String)>, cfg: Option<Arc<Config>>, live: Option<Vec<String>>, live_kind: Option<&'static str>, gen: u64 }
+struct World { log: Vec<String>, fail_watch: HashSet<String>, fail_unwatch: HashSet<String>, shape: HashMap<String, String>, hooks: HashMap<String, (Vec<String>, String)>, cfg: Option<Arc<Config>>, live: Option<Vec<String>>, live_kind: Option<&'static str>, newhook: Option<String>, gen: u64 }
 
 /// a path is named by what follows `/p/`, with `.` for `/`: nested names (`a`, `a.x`, `a.x.y`) are different paths, one inside the other
 fn name_of(p: &Path) -> String { p.strip_prefix("/p").unwrap_or(p).to_string_lossy().replace('/', ".") }
@@ -70,6 +70,9 @@ async fn settle() { for _ in 0..60 { tokio::task::yield_now().await; } }
 async fn run_case(ops: Vec<String>) -> String {
     let world = Arc::new(Mutex::new(World::default()));
     *verif::FACTORY.lock().unwrap() = Some(Box::new({ let world = world.clone(); move |k, _h| {
+        // `hookn:<kind>`: Config::file_watcher is called from INSIDE this creation (another thread changing the kind while the watcher is built)
+        let pending = world.lock().unwrap().newhook.take();
+        if let Some(nk) = pending { let cfg = world.lock().unwrap().cfg.clone().unwrap(); cfg.file_watcher(kind(&nk)); }
         let mut w = world.lock().unwrap(); w.log.push(format!("new:{}", if matches!(k, Kind::Native) { "N" } else { "P" })); w.live = Some(vec![]); w.live_kind = Some(if matches!(k, Kind::Native) { "N" } else { "P" }); w.gen += 1; let gen = w.gen;
         Ok(Box::new(RecW { w: world.clone(), registered: vec![], gen }) as Box<dyn notify::Watcher + Send>) } }));
     let cfg = Arc::new(Config::default());
@@ -88,6 +91,7 @@ async fn run_case(ops: Vec<String>) -> String {
             "hook" => { world.lock().unwrap().hooks.clear(); world.lock().unwrap().hooks.insert(f[1].to_string(), (paths(f[2]), f[3].to_string())); continue; }
             "hookk" => { world.lock().unwrap().hooks.clear(); world.lock().unwrap().hooks.insert(f[1].to_string(), (vec!["*keep*".to_string()], f[2].to_string())); continue; }
             "kind" => { cfg.file_watcher(kind(f[1])); settle().await; }
+            "hookn" => { world.lock().unwrap().newhook = Some(f[1].to_string()); continue; }
             "failw" => { let mut w = world.lock().unwrap(); w.fail_watch.insert(f[1].to_string()); w.shape.remove(f[1]); if f.len() > 2 { w.shape.insert(f[1].to_string(), f[2].to_string()); } continue; }
             "okw" => { world.lock().unwrap().fail_watch.remove(f[1]); continue; }
             "failu" => { let mut w = world.lock().unwrap(); w.fail_unwatch.insert(f[1].to_string()); if f.len() > 2 { w.shape.insert(f[1].to_string(), f[2].to_string()); } continue; }
